@@ -3,7 +3,9 @@ package main
 import (
 	"fmt"
 	"go/ast"
+	"go/constant"
 	"go/token"
+	"sort"
 	"path/filepath"
 	"strings"
 )
@@ -188,7 +190,7 @@ func origin(p *pkg, fd *ast.FuncDecl, e ast.Expr, local map[string]bool, depth i
 func genJsonxOwn(repo string) (string, error) {
 	var b strings.Builder
 	b.WriteString("(* Generated by gen/jsonx_own.go from jsonx/, lexing/ and strtoken/ of the repository. *)\n")
-	b.WriteString("From Coq Require Import List String.\nFrom Verif Require Import Jsonx.GenTypes.\n")
+	b.WriteString("From Coq Require Import List String NArith.\nFrom Verif Require Import Jsonx.GenTypes.\n")
 	b.WriteString("Import ListNotations.\nLocal Open Scope string_scope.\n\n")
 	var origins, vars []string
 	for _, dir := range []string{"jsonx", "lexing", "strtoken"} {
@@ -324,6 +326,54 @@ func genJsonxOwn(repo string) (string, error) {
 			})
 		}
 	}
+	// every integer the packages name that is large enough to be a size bound:
+	// literals, constants and constant expressions (1 << 20) of at least 256
+	seenInt := map[int64]bool{}
+	var ints []int64
+	addInt := func(v constant.Value) {
+		if v == nil || v.Kind() != constant.Int {
+			return
+		}
+		if x, ok := constant.Int64Val(v); ok && x >= 256 && !seenInt[x] {
+			seenInt[x] = true
+			ints = append(ints, x)
+		}
+	}
+	for _, dir := range []string{"jsonx", "lexing", "strtoken"} {
+		p, err := loadPkg(filepath.Join(repo, dir))
+		if err != nil {
+			continue
+		}
+		consts, _ := p.consts()
+		for _, v := range consts {
+			addInt(v)
+		}
+		for _, fn := range p.sortedFiles() {
+			ast.Inspect(p.files[fn], func(n ast.Node) bool {
+				switch x := n.(type) {
+				case *ast.BasicLit:
+					if x.Kind == token.INT {
+						addInt(constant.MakeFromLiteral(x.Value, token.INT, 0))
+					}
+				case *ast.BinaryExpr:
+					switch x.Op {
+					case token.SHL, token.SHR, token.MUL, token.ADD, token.SUB, token.QUO:
+						func() {
+							defer func() { recover() }() // not a constant expression
+							addInt(evalConst(x, consts, 0))
+						}()
+					}
+				}
+				return true
+			})
+		}
+	}
+	sort.Slice(ints, func(i, j int) bool { return ints[i] < ints[j] })
+	its := []string{}
+	for _, x := range ints {
+		its = append(its, fmt.Sprintf("%d%%N", x))
+	}
+	fmt.Fprintf(&b, "Definition gen_int_literals : list N := [%s].\n\n", strings.Join(its, "; "))
 	fmt.Fprintf(&b, "Definition gen_writefile_opens : list (string * wopen) :=\n  %s.\n\n", coqList(opens))
 	fmt.Fprintf(&b, "Definition gen_result_origins : list (string * list rorigin) :=\n  %s.\n\n", coqList(origins))
 	fmt.Fprintf(&b, "Definition gen_pkg_buffers : list (string * string) :=\n  %s.\n", coqList(vars))
